@@ -798,6 +798,12 @@ def view_roots(V, ex, st, fn):
             if au.call_tail(m) == "map" and len(m.args) == 2 and au.src(m.args[0]) == "self.find" and elts_iter(m.args[1]):
                 V.ok("roots", "C20-V1", "roots is set(map(find, elements))")
                 return
+    if d is None and st.ret is not None and not climbs(st) and parent_derived(ex, st, st.ret) == "par" \
+            and not any(ev.kind == "call" and ev.tail == "find" for ev in st.events):
+        V.fail("roots", "C20-V1", "roots() collects values computed from parent pointers (self._par) by a fixed number of look-ups instead of self.find(element)",
+               "a parent (or a parent's provisional root) is not the root unless the forest is flat and visited in the right order: "
+               "the view reports non-roots and disagrees with find / n_comps")
+        return
     if d is None and st.ret is not None and ex.kind(st.ret) in ("display", "call"):
         # explicit loop: out = set(); for e in self._elts: out.add(self.find(e)); return out
         t = st.ret.id
@@ -836,6 +842,56 @@ def view_roots(V, ex, st, fn):
         V.fail("roots", "C20-V1", "roots() collects parent pointers instead of self.find(element)", "a parent is not a root unless the tree is flat")
     else:
         V.und("roots", "C20-V1", "roots() does not collect self.find(element)")
+
+
+def parent_derived(ex, st, e, depth=0, seen=None):
+    """is the value `e` computed from entries of self._par by a fixed number of look-ups (no call of find, no loop that climbs until a
+    node is its own parent, no helper that could not be followed) ?  Returns 'par' / 'unknown' / None (not derived from _par at all).
+    Follows tokens to what they stand for: elements of iterables, arguments of calls, values stored into containers built on the path."""
+    seen = seen if seen is not None else set()
+    if depth > 8:
+        return "unknown"
+    verdict = None
+
+    def merge(v):
+        nonlocal verdict
+        if v == "unknown" or verdict == "unknown":
+            verdict = "unknown"
+        elif v == "par":
+            verdict = "par"
+    for n in ast.walk(e):
+        if isinstance(n, ast.Attribute) and is_field(n, "_par"):
+            merge("par")
+        t = S.tok_name(n)
+        if not t or t in seen:
+            continue
+        seen.add(t)
+        k, o = ex.toks.get(t, (None, None))
+        if k == "elem":
+            merge(parent_derived(ex, st, o, depth + 1, seen))
+        elif k == "call":
+            if isinstance(o.func, ast.Attribute) and isinstance(o.func.value, ast.Name) and o.func.value.id == "self":
+                merge("unknown")            # find(...) or a helper that was not executed in line
+            else:
+                for a in list(o.args) + [kw.value for kw in o.keywords]:
+                    merge(parent_derived(ex, st, a, depth + 1, seen))
+        elif k == "display":
+            merge(parent_derived(ex, st, o, depth + 1, seen)) if isinstance(o, ast.AST) else None
+        elif k in ("carried", "unknown", "default"):
+            merge("unknown")
+        # what was stored into / appended to the object the token stands for
+        for ev in st.events:
+            if ev.kind in ("store", "aug") and isinstance(ev.target, ast.Subscript) and au.src(ev.target.value) == t and ev.value is not None:
+                merge(parent_derived(ex, st, ev.value, depth + 1, seen))
+            elif ev.kind == "call" and ev.recv is not None and au.src(ev.recv) == t and ev.tail in ("append", "add", "extend", "update", "insert", "setdefault"):
+                for a in ev.args:
+                    merge(parent_derived(ex, st, a, depth + 1, seen))
+    return verdict
+
+
+def climbs(st):
+    """the path runs a `while` loop (in the view or a helper executed in line): it may climb to a fixed point of _par"""
+    return any(c[3] in ("loop", "loop-exit") and isinstance(au.parent(c[2]), ast.While) for c in st.conds)
 
 
 def _filing(V, ex, st, key, what):
@@ -879,6 +935,8 @@ def _filing(V, ex, st, key, what):
                     keyed = [hk]
         by_index = [n for n in ast.walk(recv) if isinstance(n, ast.Subscript) and is_field(n.value, "_indx")]
         by_parent = [n for n in ast.walk(recv) if isinstance(n, ast.Subscript) and is_field(n.value, "_par")]
+        if not keyed and not by_parent and not climbs(st) and parent_derived(ex, st, ev.recv) == "par":
+            by_parent = [ev.recv]
         if keyed and not guards:
             V.ok(key, "C20-V1", "element filed under find(element)")
         elif keyed:
